@@ -102,6 +102,9 @@ def completes(s) -> bool:
         return block_completes(s[1]) or block_completes(s[2])
     if k == "wtrue":
         return True  # a bound break is required by valid()
+    if k in ("while", "for"):
+        # leaves through a break, or through the else (which always runs when no break is taken)
+        return block_completes(s[2]) or has_bound_break(s[1])
     if k == "try":
         if s[4] and not block_completes(s[4]):
             return False
@@ -171,6 +174,19 @@ def valid(mode: str, body) -> bool:
     if seen_h and n_local_asg == 0:
         return False  # `nonlocal v` needs a binding of v in f
     return n_asg > 0
+
+
+def tidy(body) -> bool:
+    """No dead code: nothing follows a statement that cannot complete, and a try has an else only if its
+    body can complete.  (The generator guarantees this; minimisation must not drift out of it, or it ends up
+    showing what pyanalyze does with unreachable assignments instead of the defect it started from.)"""
+    for _, s in walk(body):
+        if s[0] == "try" and s[3] and not block_completes(s[1]):
+            return False
+        for _, b in blocks_of(s):
+            if any(not completes(x) for x in b[:-1]):
+                return False
+    return not any(not completes(x) for x in body[:-1])
 
 
 def _in_loop(path) -> bool:
